@@ -1293,20 +1293,51 @@ Proof.
   destruct (egress_loop egress_fuel (check_retx k) []) as [k1 out]. cbn [fst] in *. apply OwnInv_reap_closed, H1.
 Qed.
 
-Lemma OwnInv_k_udp_send_to k ow fd pl dst :
-  (forall s, lookup k fd = Some s -> s_stream s = false /\ s_tcb s = None) -> OwnInv k ow -> OwnInv (fst (k_udp_send_to k fd pl dst)) ow.
+Lemma dgram_not_listener k ow fd s :
+  OwnInv k ow -> lookup k fd = Some s -> s_stream s = false -> s_tcb s = None ->
+  forall s0, In (fd, s0) (socks k) -> is_listener s0 = false /\ is_synrcvd s0 = false.
 Proof.
-  intros DG H. unfold k_udp_send_to. destruct (lookup k fd) as [s|] eqn:L; [|exact H].
-  destruct (lookup_some_in _ _ _ L) as [Hs Hfd]. destruct (DG s eq_refl) as [DS DT].
-  destruct (negb _); [exact H|]. destruct (_ <? _); [exact H|].
-  assert (forall s0, In (fd, s0) (socks k) -> is_listener s0 = false /\ is_synrcvd s0 = false) as NL.
-  { intros s0 Hin. rewrite (lookup_unique _ _ _ _ (o_idx _ _ H) L Hin). split.
-    - destruct (is_listener s) eqn:X; [|reflexivity]. destruct (o_lis _ _ H _ _ Hs X) as (_ & _ & ST & _). congruence.
-    - unfold is_synrcvd. rewrite DT. reflexivity. }
+  intros H L DS DT s0 Hin. destruct (lookup_some_in _ _ _ L) as [Hs _].
+  rewrite (lookup_unique _ _ _ _ (o_idx _ _ H) L Hin). split.
+  - destruct (is_listener s) eqn:X; [|reflexivity]. destruct (o_lis _ _ H _ _ Hs X) as (_ & _ & ST & _). congruence.
+  - unfold is_synrcvd. rewrite DT. reflexivity.
+Qed.
+
+Lemma OwnInv_udp_send_core k ow fd s pl dst :
+  lookup k fd = Some s -> s_stream s = false -> s_tcb s = None -> OwnInv k ow -> OwnInv (fst (udp_send_core k fd s pl dst)) ow.
+Proof.
+  intros L DS DT H. destruct (lookup_some_in _ _ _ L) as [Hs Hfd]. unfold udp_send_core. destruct (_ <? _); [exact H|].
+  pose proof (dgram_not_listener k ow fd s H L DS DT) as NL.
   assert (OwnInv (fst (match s_bound s with Some b => (k, Ready b) | None => auto_bind k fd false (fst dst) end)) ow) as H1.
   { destruct (s_bound s); [exact H|apply OwnInv_auto_bind; assumption]. }
   destruct (match s_bound s with Some b => _ | None => _ end) as [k1 r]; cbn [fst] in *.
   destruct r as [|b|e]; try exact H1. apply OwnInv_emit, H1.
+Qed.
+
+Lemma OwnInv_k_udp_send_to k ow fd pl dst :
+  (forall s, lookup k fd = Some s -> s_stream s = false /\ s_tcb s = None) -> OwnInv k ow -> OwnInv (fst (k_udp_send_to k fd pl dst)) ow.
+Proof.
+  intros DG H. unfold k_udp_send_to. destruct (lookup k fd) as [s|] eqn:L; [|exact H].
+  destruct (DG s eq_refl) as [DS DT]. destruct (negb _); [exact H|]. apply OwnInv_udp_send_core; assumption.
+Qed.
+
+Lemma OwnInv_k_udp_send k ow fd pl :
+  (forall s, lookup k fd = Some s -> s_stream s = false /\ s_tcb s = None) -> OwnInv k ow -> OwnInv (fst (k_udp_send k fd pl)) ow.
+Proof.
+  intros DG H. unfold k_udp_send. destruct (lookup k fd) as [s|] eqn:L; [|exact H].
+  destruct (DG s eq_refl) as [DS DT]. destruct (s_peer s); [apply OwnInv_udp_send_core; assumption|exact H].
+Qed.
+
+Lemma OwnInv_k_udp_connect k ow fd peer :
+  (forall s, lookup k fd = Some s -> s_stream s = false /\ s_tcb s = None) -> OwnInv k ow -> OwnInv (fst (k_udp_connect k fd peer)) ow.
+Proof.
+  intros DG H. unfold k_udp_connect. destruct (lookup k fd) as [s|] eqn:L; [|exact H].
+  destruct (DG s eq_refl) as [DS DT]. destruct (lookup_some_in _ _ _ L) as [Hs Hfd]. destruct (negb _); [exact H|].
+  pose proof (dgram_not_listener k ow fd s H L DS DT) as NL.
+  assert (OwnInv (fst (match s_bound s with Some b => (k, Ready b) | None => auto_bind k fd false (fst peer) end)) ow) as H1.
+  { destruct (s_bound s); [exact H|apply OwnInv_auto_bind; assumption]. }
+  destruct (match s_bound s with Some b => _ | None => _ end) as [k1 r]; cbn [fst] in *.
+  destruct r as [|b|e]; try exact H1. apply OwnInv_upd_light; [|exact H1]. intros s0. reflexivity.
 Qed.
 
 (* ------------------------------------------------------------------ *)
@@ -1360,6 +1391,16 @@ Proof.
   - (* OUdpSend *)
     destruct (own _ fd && is_dgram k fd && negb (has_tcb_b k fd)) eqn:G; [|exact H].
     apply andb_prop in G as [G G3]. apply andb_prop in G as [_ G2]. apply OwnInv_k_udp_send_to; [|exact H].
+    intros s L. unfold is_dgram, has_tcb_b in *. rewrite L in *. split; [apply Bool.negb_true_iff, G2|].
+    destruct (s_tcb s); [discriminate|reflexivity].
+  - (* OUdpConnect *)
+    destruct (own _ fd && is_dgram k fd && negb (has_tcb_b k fd)) eqn:G; [|exact H].
+    apply andb_prop in G as [G G3]. apply andb_prop in G as [_ G2]. apply OwnInv_k_udp_connect; [|exact H].
+    intros s L. unfold is_dgram, has_tcb_b in *. rewrite L in *. split; [apply Bool.negb_true_iff, G2|].
+    destruct (s_tcb s); [discriminate|reflexivity].
+  - (* OUdpSendC *)
+    destruct (own _ fd && is_dgram k fd && negb (has_tcb_b k fd)) eqn:G; [|exact H].
+    apply andb_prop in G as [G G3]. apply andb_prop in G as [_ G2]. apply OwnInv_k_udp_send; [|exact H].
     intros s L. unfold is_dgram, has_tcb_b in *. rewrite L in *. split; [apply Bool.negb_true_iff, G2|].
     destruct (s_tcb s); [discriminate|reflexivity].
   - apply OwnInv_k_deliver, H.
